@@ -43,6 +43,22 @@ CHECKS["C18"] = dict(
          "the extracted model.",
     design="4/C18", technique="Coq proof over scoring constants regenerated from the C source + differential correspondence with lou_findTable/lou_findTables/lou_getTableInfo")
 
+CHECKS["C01"] = dict(
+    text="Machine-checked proof (Coq) for the part of forward memory safety that is logic: for ALL input lengths and capacities the "
+         "scratch-buffer plan regenerated from _lou_allocMem and its call sites provides at least what a call demands (typebuf, "
+         "position maps, destSpacing, word/emphasis buffers, pass buffers, with and without the 1024 floor), and every sequence of "
+         "emissions through the choke point with its regenerated guard stays below maxlength (all-or-nothing). Tied to the code by "
+         "black-box identification of the plan and by ASan+UBSan streams with exact scratch sizes and exactly sized caller arrays. "
+         "Partial: undefined behaviour and reads outside the modelled buffers are observed under sanitizers, not proved.",
+    design="4/C01", technique="Coq proof over sizing plan and emission guards regenerated from the C source + sanitizer-instrumented differential/fault streams")
+CHECKS["C02"] = dict(
+    text="Machine-checked proof (Coq): backward scratch plan (first pass buffer with sentinel, position maps) for all lengths, backward "
+         "emission choke points with regenerated guards, and on the hyphenation model the hyphens array keeps its length and holds only "
+         "'0'/'1'/'2' for every dictionary and word. Tied to the code by ASan+UBSan streams over lou_backTranslate(String), "
+         "lou_charToDots/lou_dotsToChar and lou_hyphenate (text and braille mode) with exact sizes. Partial: the backward matcher and "
+         "multipass interpreter are observed under sanitizers, not proved.",
+    design="4/C02", technique="Coq proof over sizing plan and emission guards regenerated from the C source + sanitizer-instrumented streams")
+
 PENDING = {}
 
 
